@@ -148,6 +148,14 @@ TreesOver(Ns, BinOps, d) ==
        IN  sub \cup {Un("NOT", a) : a \in sub}
                \cup {Bin(o, a, b) : o \in BinOps, a \in sub, b \in sub}
 
+\* one binary operator over two literals that carry up to k redundant negations each (the documented simple forms
+\* and their redundantly negated variants: !!A | !B, A => !!!B, ...)
+RECURSIVE NotChain(_, _)
+NotChain(v, k) == IF k = 0 THEN v ELSE Un("NOT", NotChain(v, k - 1))
+NegLitTrees(Ns, BinOps, K) ==
+  LET L == {NotChain(Var(n), k) : n \in Ns, k \in 0..K}
+  IN  {Bin(o, a, b) : o \in BinOps, a \in L, b \in L}
+
 \* the shape readers build for an equivalence - a conjunction of two implications - with every
 \* combination of literals in the four positions
 EqShapeTrees(Ns) ==
